@@ -53,6 +53,15 @@ def lemma_obligations(pid, names):
     return obs
 
 
+def lemmas_for(c, obligation_name):
+    """Lemma statements usable by an obligation: contract['lemma_map'] (substring of the obligation name -> lemmas)
+    overrides the contract-wide default contract['lemmas'] (keeps expensive lemma statements out of unrelated queries)."""
+    for sub, lems in (c.get('lemma_map') or {}).items():
+        if sub in obligation_name:
+            return list(lems)
+    return list(c.get('lemmas', []))
+
+
 def generate(pid, prop, reg):
     """All obligations of a property from the current tree. Returns (obligations, interp-info, unbound)."""
     obligations, unbound, functions, dropped, trusted = [], [], [], [], set()
@@ -68,8 +77,9 @@ def generate(pid, prop, reg):
             unbound.append({'function': key, 'reason': str(e)})
             continue
         for ob in obs:
-            ob.lemmas = list(c.get('lemmas', []))
+            ob.lemmas = lemmas_for(c, ob.name)
             ob.function = key
+            used_lemmas |= set(ob.lemmas)
         used_lemmas |= set(c.get('lemmas', []))
         obligations.extend(obs)
         functions.append({'function': f"{c['module']}:{c['qualname']}", 'ast_sha': c.get('_sha'),
@@ -178,7 +188,12 @@ def main(pid, tier='quick', seed=0, replay=None):
     for r in refuted:
         name = r.ob.name
         k = match_known(known, pid, name)
-        witness = next((f for f in native_fail if name in f.get('obligations', []) or f.get('clause') in name), None)
+        nname = name.replace('/', '.')
+        witness = next((f for f in native_fail if any(o.replace('/', '.') in nname for o in f.get('obligations', []))
+                        or (f.get('clause') and f['clause'] in nname)), None)
+        if witness is None:
+            fn_part = name.split('/')[1].split('.', 1)[-1] if name.count('/') >= 2 else ''
+            witness = next((f for f in native_fail if fn_part and f.get('clause', '').startswith(fn_part)), None)
         if k is not None:
             known_hits.append((k, name))
             continue
@@ -200,11 +215,14 @@ def main(pid, tier='quick', seed=0, replay=None):
             if (k, f.get('clause')) not in [(a, b) for a, b in known_hits]:
                 known_hits.append((k, f.get('clause')))
             continue
-        if any(f.get('clause') and f['clause'] in v[0] for v in violations):
+        if any(f.get('clause') and f['clause'] in v[0].replace('/', '.') for v in violations):
             continue
+        related = [r.ob.name for r in unknown + refuted
+                   if f.get('clause') and f['clause'].split('.ensures')[0].split('.')[0] in r.ob.name]
         path = os.path.join(VERIF, 'replay', pid, _safe('native.' + str(f.get('clause'))) + '.json')
         with open(path, 'w') as fh:
             json.dump({'property': pid, 'obligation': f'native executable contract `{f.get("clause")}`',
+                       'related_unproved_obligations': related,
                        'witness': f, 'replayed_on_real_code': True,
                        'replay_cmd': f'./check {pid} --replay {path}'}, fh, indent=1)
         violations.append((f'native:{f.get("clause")}', path, True))
